@@ -103,13 +103,14 @@ theorem zipFind_found_first {cs as : List Str} {c a : Str} (h : zipFind cs as c 
 
 /-! ### what a successful run of each handler implies (the order of checks of the Go code) -/
 
-theorem execRecv_ok {st st' : State} {s : Signer} {p : Pkt} {proofOK : Bool}
-    (h : execRecv st s p proofOK = .ok st') :
+theorem execRecv_ok {st st' : State} {s : Signer} {p : Pkt} {proofOK : Bool} {cb : Cb}
+    (h : execRecv st s p proofOK cb = .ok st') :
     validatePacket st p = true ∧ st.receipts.contains p.triple = false ∧
     ∃ c, getClient st.clients p.src = some c ∧ verify c s proofOK = true ∧
     ∃ rl, otherChainAddr st.reg p.src s.raw = .found rl ∧
       ((p.dst = st.self ∨ getClient st.clients p.dst = none) →
-          hasAck st.acks p.triple = false ∧ st'.acks = (p.triple, some rl) :: st.acks) ∧
+          hasAck st.acks p.triple = false ∧
+          st'.acks = (p.triple, ⟨some rl, recvClass st p cb⟩) :: st.acks) ∧
       st'.reg = st.reg := by
   unfold execRecv at h
   split at h
@@ -128,18 +129,31 @@ theorem execRecv_ok {st st' : State} {s : Signer} {p : Pkt} {proofOK : Bool}
           · rename_i rl ho
             refine ⟨by simp_all, by simp_all, c, hc, by simp_all, rl, ho, ?_, ?_⟩
             · intro hd
-              have hb : (p.dst == st.self || !(getClient st.clients p.dst).isSome) = true := by
-                rcases hd with hd | hd <;> simp [hd]
-              simp only [hb, ↓reduceIte] at h
-              split at h
-              · cases h
-              · cases h
-                simp_all
+              by_cases hself : (p.dst == st.self) = true
+              · simp only [hself, ↓reduceIte] at h
+                split at h
+                · cases h
+                · rename_i hno
+                  cases cb <;> (simp only at h; cases h; simp_all [recvClass])
+              · simp only [hself, Bool.false_eq_true, ↓reduceIte] at h
+                have hnone : getClient st.clients p.dst = none := by
+                  rcases hd with hd | hd
+                  · simp [hd] at hself
+                  · exact hd
+                simp only [hnone, Option.isSome_none, Bool.not_false, ↓reduceIte] at h
+                split at h
+                · cases h
+                · cases h
+                  simp_all [recvClass]
             · split at h
               · split at h
                 · cases h
+                · cases cb <;> (simp only at h; cases h; rfl)
+              · split at h
+                · split at h
+                  · cases h
+                  · cases h; rfl
                 · cases h; rfl
-              · cases h; rfl
 
 theorem execUpdate_ok {st st' : State} {s : Signer} {chain : Str} {hdrOK : Bool} {newTss : Option Str}
     (h : execUpdate st s chain hdrOK newTss = .ok st') :
@@ -226,8 +240,8 @@ theorem update_needs_relayer (fold : Str → Str → Bool) (st : State) (s : Sig
 /-- An accepted `MsgRecvPacket` was signed by an account registered as relayer for the packet's source
 chain; the source chain's client verified the packet; for a TSS-secured source chain the signer is the
 configured TSS address. -/
-theorem recv_needs_relayer (fold : Str → Str → Bool) (st : State) (s : Signer) (p : Pkt) (proofOK : Bool)
-    (h : (deliver fold st (.recv s p proofOK)).2 = true) :
+theorem recv_needs_relayer (fold : Str → Str → Bool) (st : State) (s : Signer) (p : Pkt) (proofOK : Bool) (cb : Cb)
+    (h : (deliver fold st (.recv s p proofOK cb)).2 = true) :
     p.src ∈ chainsOf st.reg s.raw ∧
     (∃ c, getClient st.clients p.src = some c ∧ verify c s proofOK = true) ∧
     (∀ a, getClient st.clients p.src = some (.tss a) → s.raw = a) := by
@@ -264,7 +278,7 @@ theorem ack_payout_resolves (fold : Str → Str → Bool) (st : State) (s : Sign
   obtain ⟨_, _, _, _, _, hp, _⟩ := execAck_ok (by simpa [exec] using hx)
   exact (hp hsrc).2
 
-theorem ackOf_none_of_hasAck_false (l : List (Triple × Option Str)) (t : Triple) (h : hasAck l t = false) :
+theorem ackOf_none_of_hasAck_false (l : List (Triple × AckRec)) (t : Triple) (h : hasAck l t = false) :
     ackOf l t = none := by
   induction l with
   | nil => simp [ackOf]
@@ -277,11 +291,11 @@ theorem ackOf_none_of_hasAck_false (l : List (Triple × Option Str)) (t : Triple
 /-- The acknowledgement written by an accepted receive carries, as fee recipient, exactly
 `Addresses[i]` of the submitting signer's own registration, i the first index with `Chains[i] = p.src`;
 no acknowledgement existed for the packet before. -/
-theorem ack_relayer_field (fold : Str → Str → Bool) (st : State) (s : Signer) (p : Pkt) (proofOK : Bool)
-    (h : (deliver fold st (.recv s p proofOK)).2 = true)
+theorem ack_relayer_field (fold : Str → Str → Bool) (st : State) (s : Signer) (p : Pkt) (proofOK : Bool) (cb : Cb)
+    (h : (deliver fold st (.recv s p proofOK cb)).2 = true)
     (hdst : p.dst = st.self ∨ getClient st.clients p.dst = none) :
     ∃ ir rl, getRelayer st.reg s.raw = some ir ∧ FirstMatch ir.chains ir.addresses p.src rl ∧
-      ackOf (deliver fold st (.recv s p proofOK)).1.acks p.triple = some (some rl) ∧
+      ackOf (deliver fold st (.recv s p proofOK cb)).1.acks p.triple = some ⟨some rl, recvClass st p cb⟩ ∧
       ackOf st.acks p.triple = none := by
   obtain ⟨st', hx, hst⟩ := deliver_accepted h
   obtain ⟨_, _, c, hc, hver, rl, ho, hack, _⟩ := execRecv_ok (by simpa [exec] using hx)
@@ -294,6 +308,39 @@ theorem ack_relayer_field (fold : Str → Str → Bool) (st : State) (s : Signer
     refine ⟨ir, rl, rfl, zipFind_found_first ho, ?_, ackOf_none_of_hasAck_false _ _ hno⟩
     rw [hst, hacks]
     simp [ackOf]
+
+/-- `ack_relayer_field` split per outcome class of the receive: whichever branch of `msg_server.RecvPacket`
+writes the acknowledgement — callback returned code 0, callback returned a code ≠ 0, the callback failed at EVM
+level (error ack "receive packet callback failed"), destination chain without client (error ack "dstChain not
+found") — the fee recipient is the address the signer registered for the packet's source chain. -/
+theorem ack_relayer_field_callback_ok (fold : Str → Str → Bool) (st : State) (s : Signer) (p : Pkt) (proofOK : Bool)
+    (h : (deliver fold st (.recv s p proofOK .ok)).2 = true) (hdst : p.dst = st.self) :
+    ∃ ir rl, getRelayer st.reg s.raw = some ir ∧ FirstMatch ir.chains ir.addresses p.src rl ∧
+      ackOf (deliver fold st (.recv s p proofOK .ok)).1.acks p.triple = some ⟨some rl, .cbOk⟩ := by
+  obtain ⟨ir, rl, h1, h2, h3, _⟩ := ack_relayer_field fold st s p proofOK .ok h (Or.inl hdst)
+  exact ⟨ir, rl, h1, h2, by simpa [recvClass, hdst] using h3⟩
+
+theorem ack_relayer_field_callback_code (fold : Str → Str → Bool) (st : State) (s : Signer) (p : Pkt) (proofOK : Bool)
+    (h : (deliver fold st (.recv s p proofOK .code)).2 = true) (hdst : p.dst = st.self) :
+    ∃ ir rl, getRelayer st.reg s.raw = some ir ∧ FirstMatch ir.chains ir.addresses p.src rl ∧
+      ackOf (deliver fold st (.recv s p proofOK .code)).1.acks p.triple = some ⟨some rl, .cbCode⟩ := by
+  obtain ⟨ir, rl, h1, h2, h3, _⟩ := ack_relayer_field fold st s p proofOK .code h (Or.inl hdst)
+  exact ⟨ir, rl, h1, h2, by simpa [recvClass, hdst] using h3⟩
+
+theorem ack_relayer_field_callback_evm_failure (fold : Str → Str → Bool) (st : State) (s : Signer) (p : Pkt) (proofOK : Bool)
+    (h : (deliver fold st (.recv s p proofOK .evmFail)).2 = true) (hdst : p.dst = st.self) :
+    ∃ ir rl, getRelayer st.reg s.raw = some ir ∧ FirstMatch ir.chains ir.addresses p.src rl ∧
+      ackOf (deliver fold st (.recv s p proofOK .evmFail)).1.acks p.triple = some ⟨some rl, .cbEvmFail⟩ := by
+  obtain ⟨ir, rl, h1, h2, h3, _⟩ := ack_relayer_field fold st s p proofOK .evmFail h (Or.inl hdst)
+  exact ⟨ir, rl, h1, h2, by simpa [recvClass, hdst] using h3⟩
+
+theorem ack_relayer_field_dst_not_found (fold : Str → Str → Bool) (st : State) (s : Signer) (p : Pkt) (proofOK : Bool) (cb : Cb)
+    (h : (deliver fold st (.recv s p proofOK cb)).2 = true) (hne : p.dst ≠ st.self)
+    (hnone : getClient st.clients p.dst = none) :
+    ∃ ir rl, getRelayer st.reg s.raw = some ir ∧ FirstMatch ir.chains ir.addresses p.src rl ∧
+      ackOf (deliver fold st (.recv s p proofOK cb)).1.acks p.triple = some ⟨some rl, .dstNotFound⟩ := by
+  obtain ⟨ir, rl, h1, h2, h3, _⟩ := ack_relayer_field fold st s p proofOK cb h (Or.inr hnone)
+  exact ⟨ir, rl, h1, h2, by simpa [recvClass, hne] using h3⟩
 
 /-- A rejected message (error or recovered panic) leaves the whole state as it was. -/
 theorem rejected_unchanged (fold : Str → Str → Bool) (st : State) (m : Msg)
@@ -368,17 +415,17 @@ that address is accepted — whatever else the signer is registered for. -/
 theorem registration_is_per_chain (fold : Str → Str → Bool) (st : State) (ops : List Op) (s : Signer) (c : Str)
     (h : c ∉ lastRegChains ops s.raw (chainsOf st.reg s.raw)) :
     (∀ hdrOK newTss, (deliver fold (run fold st ops).1 (.update s c hdrOK newTss)).2 = false) ∧
-    (∀ p proofOK, p.src = c → (deliver fold (run fold st ops).1 (.recv s p proofOK)).2 = false) := by
+    (∀ p proofOK cb, p.src = c → (deliver fold (run fold st ops).1 (.recv s p proofOK cb)).2 = false) := by
   rw [← chainsOf_run fold st ops s.raw] at h
   constructor
   · intro hdrOK newTss
     cases hd : (deliver fold (run fold st ops).1 (.update s c hdrOK newTss)).2 with
     | false => rfl
     | true => exact absurd (update_needs_relayer _ _ _ _ _ _ hd).1 h
-  · intro p proofOK hp
-    cases hd : (deliver fold (run fold st ops).1 (.recv s p proofOK)).2 with
+  · intro p proofOK cb hp
+    cases hd : (deliver fold (run fold st ops).1 (.recv s p proofOK cb)).2 with
     | false => rfl
-    | true => exact absurd (hp ▸ (recv_needs_relayer _ _ _ _ _ hd).1) h
+    | true => exact absurd (hp ▸ (recv_needs_relayer _ _ _ _ _ _ hd).1) h
 
 /-- the statement in the "registering r for chains X" form: after a valid registration of `r` for the
 chain list `X`, and any later history that does not register `r` again, `r` is accepted for no chain
@@ -389,8 +436,8 @@ theorem registration_confers_only_listed_chains (fold : Str → Str → Bool) (s
     (s : Signer) (hs : s.raw = r.address) (c : Str) (hc : c ∉ r.chains) :
     (∀ hdrOK newTss,
       (deliver fold (run fold st (pre ++ Op.reg ok r :: post)).1 (.update s c hdrOK newTss)).2 = false) ∧
-    (∀ p proofOK, p.src = c →
-      (deliver fold (run fold st (pre ++ Op.reg ok r :: post)).1 (.recv s p proofOK)).2 = false) := by
+    (∀ p proofOK cb, p.src = c →
+      (deliver fold (run fold st (pre ++ Op.reg ok r :: post)).1 (.recv s p proofOK cb)).2 = false) := by
   apply registration_is_per_chain
   have key : ∀ (ops : List Op) (d : List Str), (∀ ok' r', Op.reg ok' r' ∈ ops → r'.address ≠ r.address) →
       lastRegChains ops r.address d = d := by
@@ -427,11 +474,11 @@ valid registration lists the chain. -/
 theorem history_accepts_only_last_registered (fold : Str → Str → Bool) (st : State) (pre : List Op) (s : Signer) :
     (∀ chain hdrOK newTss, (deliver fold (run fold st pre).1 (.update s chain hdrOK newTss)).2 = true →
         chain ∈ lastRegChains pre s.raw (chainsOf st.reg s.raw)) ∧
-    (∀ p proofOK, (deliver fold (run fold st pre).1 (.recv s p proofOK)).2 = true →
+    (∀ p proofOK cb, (deliver fold (run fold st pre).1 (.recv s p proofOK cb)).2 = true →
         p.src ∈ lastRegChains pre s.raw (chainsOf st.reg s.raw)) := by
   rw [← chainsOf_run fold st pre s.raw]
   exact ⟨fun chain hdrOK newTss h => (update_needs_relayer _ _ _ _ _ _ h).1,
-         fun p proofOK h => (recv_needs_relayer _ _ _ _ _ h).1⟩
+         fun p proofOK cb h => (recv_needs_relayer _ _ _ _ _ _ h).1⟩
 
 /-! ### the payout direction: `GetRelayerAddressOnTeleport` -/
 
@@ -575,16 +622,16 @@ def exState : State :=
     receipts := [], commits := [⟨[84], [116, 115, 115], 4⟩], acks := [] }
 
 -- r2 (registered for "tss" and "src", and the TSS address of "tss") is accepted ...
-example : (deliver asciiFold exState (.recv ⟨[114, 50], [114, 50]⟩ ⟨[116, 115, 115], [84], 1, true⟩ false)).2 = true := by decide
-example : (deliver asciiFold exState (.recv ⟨[114, 50], [114, 50]⟩ ⟨[115, 114, 99], [84], 1, true⟩ true)).2 = true := by decide
+example : (deliver asciiFold exState (.recv ⟨[114, 50], [114, 50]⟩ ⟨[116, 115, 115], [84], 1, true⟩ false .evmFail)).2 = true := by decide
+example : (deliver asciiFold exState (.recv ⟨[114, 50], [114, 50]⟩ ⟨[115, 114, 99], [84], 1, true⟩ true .ok)).2 = true := by decide
 example : (deliver asciiFold exState (.update ⟨[114, 50], [114, 50]⟩ [115, 114, 99] true none)).2 = true := by decide
 example : (deliver asciiFold exState (.ack ⟨[114, 50], [114, 50]⟩ ⟨[84], [116, 115, 115], 4, true⟩ true false [101] true true)).2 = true := by decide
 -- ... the written ack carries the FIRST address r2 registered for "src" ([97], not [68])
-example : ackOf (deliver asciiFold exState (.recv ⟨[114, 50], [114, 50]⟩ ⟨[115, 114, 99], [84], 1, true⟩ true)).1.acks
-    ⟨[115, 114, 99], [84], 1⟩ = some (some [97]) := by decide
+example : ackOf (deliver asciiFold exState (.recv ⟨[114, 50], [114, 50]⟩ ⟨[115, 114, 99], [84], 1, true⟩ true .code)).1.acks
+    ⟨[115, 114, 99], [84], 1⟩ = some ⟨some [97], .cbCode⟩ := by decide
 -- ... r1 lost "src" by its re-registration, and is not the TSS account of "tss"
-example : (deliver asciiFold exState (.recv ⟨[114, 49], [114, 49]⟩ ⟨[115, 114, 99], [84], 1, true⟩ true)).2 = false := by decide
-example : (deliver asciiFold exState (.recv ⟨[114, 49], [114, 49]⟩ ⟨[116, 115, 115], [84], 1, true⟩ true)).2 = false := by decide
+example : (deliver asciiFold exState (.recv ⟨[114, 49], [114, 49]⟩ ⟨[115, 114, 99], [84], 1, true⟩ true .ok)).2 = false := by decide
+example : (deliver asciiFold exState (.recv ⟨[114, 49], [114, 49]⟩ ⟨[116, 115, 115], [84], 1, true⟩ true .ok)).2 = false := by decide
 example : RegWF exReg := by unfold RegWF; decide
 
 end TM.Auth
